@@ -278,8 +278,8 @@ def form_extent(ctx, mac):
     """Each documented token form is consumed exactly: the macro's element parser, started on a token vector
     [form..., follower...], returns Ok with the cursor right behind the form - it neither leaves one of the form's
     tokens behind nor glues a following token on (`(#:size . large)`, `(#:from - to)`, `(-1 0 1)` keep their
-    elements apart).  Driver: the macro's own vector parser (a loop of `parse` calls); the first `parse` runs as
-    MIR over a structural token vector, the cursor is read when the loop comes round to the second."""
+    elements apart).  `Parser::parse` runs as MIR over a structural token vector; the cursor is read from the parser
+    object as each accepting path left it."""
     r = ctx.rule("R-MACRO-EXTENT", "the macro's element parser consumes exactly the tokens of each documented form "
                                    "(identifier, literal, group, #t/#f/#nil, #\"..\", #(..), #:name, #:\"..\", :name, "
                                    ":\"..\", -literal, unquote, punctuation symbol), whatever token follows")
@@ -326,53 +326,49 @@ def form_extent(ctx, mac):
         for gname, rest in followers:
             toks = form + rest
 
-            def hook(S, fn, bb, t, args, path, toks=toks):
+            def hook(S, fn, bb, t, args, path):
                 p = t["callee"].get("path", "")
-                if p == "parser::Parser::new":
-                    if fn.path != pv.path or any(e[0] == "call" and "parser::Parser::new" in e[1] for e in path.events):
-                        return ("value", UNK)
-                    fs = [None, None]
-                    fs[vec_fields[0]] = Adt("sim::Vec", 0, [sim.Tup(list(toks))])
-                    fs[idx_fields[0]] = 0
-                    return ("value", Adt("parser::Parser", 0, fs))
                 if p in ("proc_macro2::Punct::as_char", "proc_macro2::Punct::spacing"):
                     pvv = S._deref(args[0], path)
                     if isinstance(pvv, Adt) and pvv.adt == "proc_macro2::Punct":
                         return ("value", pvv.fields[0 if p.endswith("as_char") else 1])
                     return ("value", UNK)
-                if p == "parser::Parser::parse" and fn.path == pv.path:
-                    first = not any(e[0] == "enter" and e[1] == pf.path and e[2] == pv.path for e in path.events)
-                    if first:
-                        return ("inline", pf)
-                    pvv = S._deref(args[0], path)
-                    at = pvv.fields[idx_fields[0]] if isinstance(pvv, Adt) and pvv.adt == "parser::Parser" else None
-                    return ("stop", "at=%s" % at)
                 if p in ("parser::parse_list", "parser::parse_vector"):
                     return ("value", Adt("std::result::Result", 0, [sim.Opq("nested")]))   # the group's own tokens
                 if p in leaf:
                     return ("fork", [Adt("std::result::Result", 0, [sim.Opq("text")]), Adt("std::result::Result", 1, [UNK])])
                 return None
 
+            fs = [None, None]
+            fs[vec_fields[0]] = Adt("sim::Vec", 0, [sim.Tup(list(toks))])
+            fs[idx_fields[0]] = 0
+            cell = [Adt("parser::Parser", 0, fs)]
             S = sim.Sim([mac], hooks={"call": hook}, inline=inline, max_paths=4000, max_depth=7, max_visits=6)
             outs = set()
             try:
-                for pth in S.run(pv):
-                    if isinstance(pth.end, str) and pth.end.startswith("stop:at="):
-                        outs.add(pth.end[8:])
-                    elif pth.end == "return" and isinstance(pth.ret, Adt) and pth.ret.adt.endswith("Result"):
-                        # Ok: the loop ended, every token consumed; Err: this reading of the form was rejected
-                        outs.add("end" if pth.ret.variant == 0 else "rejected")
+                for pth in S.run(pf, args={1: sim.Ref(cell, 0, ())}):
+                    if pth.end == "return" and isinstance(pth.ret, Adt) and pth.ret.adt.endswith("Result"):
+                        if pth.ret.variant != 0:
+                            outs.add("rejected")        # this reading of the form was refused
+                            continue
+                        # the parser object as this path left it (forked paths work on their own copy)
+                        mine, _ = S._caller_env(cell, pth, 0)
+                        pvv = mine[0]
+                        at = pvv.fields[idx_fields[0]] if isinstance(pvv, Adt) and pvv.adt == "parser::Parser" else None
+                        outs.add(str(at) if isinstance(at, int) else "?index")
+                    elif pth.end == "panic":
+                        outs.add("panic")
                     else:
                         outs.add("?" + str(pth.end))
             except sim.Limit:
                 outs = {"?limit"}
             n += 1
-            want = str(len(form)) if rest else "end"
+            want = str(len(form))
             what = "%s followed by %s" % (fname, gname)
             got = outs - {"rejected"}
             if got == {want}:
                 r.ok("%s: cursor behind the form" % what, pf)
-            elif not got or any(o.startswith("?") or o == "None" for o in got):
+            elif not got or any(o.startswith("?") for o in got):
                 und += 1
                 r.note("undecided: %s gives %s" % (what, sorted(outs)))
             else:
